@@ -22,8 +22,8 @@ type windowModel struct {
 	Last    uint64
 	// keepZero: height 0 (genesis) is always inside the window (C19).
 	keepZero bool
-	// zeroMeansLastOnly: W == 0 demands nothing but the last height (C19: the
-	// code treats 0 as "pruning disabled"; the property demands no retention).
+	// W == 0 demands nothing but the last height (C19: the code treats 0 as
+	// "pruning disabled"; the property then demands no window at all).
 	ever map[uint64]bool
 	live map[uint64]bool
 }
